@@ -42,6 +42,7 @@ SK["blocks"] = ('''MAP
 END''', [Hole("H01"), Hole("H02"), Hole("H03"), Hole("H04")], ["CA", "CB"])
 
 BODY = '''
+PPA = ALIGNED
 def V(nm):
     if nm in v:
         return v[nm]
@@ -59,6 +60,9 @@ if tsp.plain(dp) != p0 or tsp.plain(dc) != p0 or tsp.plain(dpc) != p0:
 l0 = PP._format(d0)
 if PP._format(dp) != l0:
     return False                                   # positions are never printed
+la = PPA._format(d0)
+if PPA._format(dp) != la or PPA._format(tsp.plain_dict(dpc)) != la:
+    return False                                   # nor do hidden keys influence the layout (value alignment) of what is printed
 lc = PP._format(dpc)
 if PP._format(dc) != lc:
     return False
@@ -136,7 +140,7 @@ def obligations(tier, seed):
                 build.append(f"v_{c} = '# ' + {chr_expr(c.lower() + '_', 2)}")
                 sub.append(f"'# {c}': v_{c}")
         holes1 = "{" + ", ".join(f"{h.src_token()!r}: {h.src_value()}" for h in holes) + "}"
-        defs = f"\nTEXT = {text!r}\n"
+        defs = f"\nTEXT = {text!r}\nALIGNED = tsp.printer(tsp.ALL_TYPES, indent=2, align_values=True)\n"
         vmap = "{" + ", ".join(f"{c!r}: v_{c}" for c in coms) + "}"
         try:
             lcexp = _structure(text)
